@@ -4,10 +4,15 @@ import json, os
 V = os.path.dirname(os.path.dirname(os.path.abspath(__file__)))
 TECH = "machine-checked proof (Coq 8.16) over a hand-written Gallina model + differential correspondence run against /repo"
 CLAIMED = {
- "C01": ("Coq theorems C01_grow_is_render, C01_build_is_trie, C01_text_rule_items (all forests, names, branch strings, both routes; closed under the global context) + correspondence of the extracted model AND of the extracted reference renderer with the real OutputFromMarkdown on enumerated and sampled spelled forests", TECH),
+ "C01": ("Coq theorems C01_text_rule (full statement: every forest x every spelling of the notation family x all four branch strings x both routes, down to the bytes), C01_grow_is_render, C01_build_is_trie, C01_text_rule_items (closed under the global context) + correspondence of the extracted model AND of the extracted reference renderer with the real OutputFromMarkdown on enumerated and sampled spelled forests", TECH),
+ "C02": ("Coq theorems C02_error_iff (error iff the declarative classifier finds a malformed line, all byte strings within the scanner limit, text/JSON/YAML/TOML, both routes), C02_row, C02_accepted, C02_parser_is_classifier (stateful three-symbol parser + stack machine = classifier) + correspondence: every malformation class injected at every line position, mutation stream, simple and massive; no-loss checked through decoded JSON paths", TECH),
  "C03": ("Coq theorems C03_output/_walk/_mkdir/_verify (From-Root = From-Markdown for every Add-built tree), C03_add_never_duplicates (all histories), C03_add_idempotent, C03_guard_* + correspondence: random Add orders with duplicate Adds, both API families and deprecated aliases, compared pairwise on the implementation and against the model", TECH),
  "C04": ("Coq theorems C04_structure (positional getChild copy = tree, all shapes), C04_stream + correspondence: JSON bytes compared exactly with the Gallina json_encode; JSON/YAML/TOML output decoded by standard decoders and compared with the forest over a hostile name alphabet (the YAML/TOML encoders themselves are opaque)", TECH),
  "C05": ("Coq theorems C05_visits (walk of the grown forest = top-down specification incl. Path, all forests with single-element names, all branch strings), C05_rows_are_lines, C05_visit_facts (all names), C05_first_error_stops (callback as an arbitrary oracle), C05_iter_break + correspondence: every stop position on enumerated forests, six entry points, compared with the extracted specification", TECH),
+ "C06": ("Coq theorems C06_exists, C06_error_reported, C06_dirs_kept_partial over the finite-map file-system model (the exact-new-entry-set theorem is in progress: see DESIGN.md) + correspondence in a jail: pre-states with pre-existing roots, file components, over-long names; snapshot compared with the node paths computed from the forest", TECH),
+ "C07": ("Coq theorem C07_rejects (every mkdir entry point, any position of a name that is empty, '.', '..' or contains '/': error and untouched file system) + correspondence: hostile names at every position, whole-scratch snapshot incl. sentinels outside the target", TECH),
+ "C08": ("Coq theorems C08_iff_root, C08_sound, C08_readonly over the file-system model + correspondence: arbitrary subsets/extras, file roots, missing roots, states made by mkdir, strict and non-strict, both families", TECH),
+ "C09": ("Coq theorems C09_no_effect, C09_report, C09_same_verdict + correspondence: dry run followed by the real run in the same jail; counts compared with what the real run created", TECH),
  "C12": ("Coq theorems C12_no_panic_* (Panic unreachable for every byte string, option set and failing reader), C12_blank, C12_scan_failure + correspondence: mutation/raw/long-line stream through every entry point incl. massive variants in isolated processes", TECH),
  "C13": ("Coq theorems C13_function_of_tree, C13_repeat, C13_other_trees, C13_markdown_independent over all histories + correspondence: exhaustive short and random long histories, re-run on freshly built copies and concurrently in goroutines", TECH),
  "C14": ("Coq theorems C14_writer, C14_writer_root, C14_short_budget, C14_reader (reader/writer oracles universally quantified), C14_reader_error_partial + correspondence: reader failure at every sampled offset, writer budgets at every sampled byte, all modes, both families, simple and massive", TECH),
